@@ -1,6 +1,7 @@
 import Driver.Codec
 import Driver.Solve
 import Driver.Text
+import Driver.Cli
 open Ezpz Ezpz.Driver
 
 /-- Discrete signature and float payload of one kernel evaluation (for the stability probe). -/
@@ -62,6 +63,7 @@ def step (line : String) : String :=
   | "K" :: ts => runKernel ts
   | "S" :: ts => runSolve ts
   | "T" :: ts => runText ts
+  | "C" :: ts => runCli ts
   | _ => "bad-op"
 
 partial def loop (h : IO.FS.Stream) (out : IO.FS.Stream) : IO Unit := do
